@@ -459,8 +459,9 @@ Definition plan_spec (m : meth) (eargs : list earg) : list (nat * conv) :=
   end.
 
 (* one call with effectful arguments: result (8 = the conversion threw) and the conversion log.
-   mo = None stands for String.fromCharCode(args). *)
-Definition effect_step (plan : meth -> str -> list earg -> list (nat * conv))
+   mo = None stands for String.fromCharCode(args).  this_last m says that ToString(this) happens
+   after the argument conversions (never in ES5). *)
+Definition effect_step (plan : meth -> str -> list earg -> list (nat * conv)) (this_last : meth -> bool)
     (call : meth -> recv -> list arg -> option res) (from : list arg -> option str)
     (mo : option meth) (er : erecv) (eargs : list earg) : option (res * list Z) :=
   match mo with
@@ -471,19 +472,29 @@ Definition effect_step (plan : meth -> str -> list earg -> list (nat * conv))
       end
   | Some m =>
       match m, er with
-      | (MCharAt | MCharCodeAt | MLength | MIndex), ERObj _ _ _ => None
+      | (MLength | MIndex), ERObj _ _ _ => None
       | _, _ =>
         let '(log0, this) := match er with
                              | ERLit u => ([], Some (RLit u, u))
                              | ERObj id sv ts => ([2 * id], if ts then None else Some (RObj sv, sv))
                              end in
-        match this with
-        | None => Some (VErr 8, log0)
-        | Some (r, s) =>
-            match conv_seq (plan m s eargs) eargs (map placeholder eargs) log0 with
-            | (log, None) => Some (VErr 8, log)
-            | (log, Some args) => option_map (fun v => (v, log)) (call m r args)
-            end
-        end
+        if this_last m then
+          match conv_seq (plan m [] eargs) eargs (map placeholder eargs) [] with
+          | (log, None) => Some (VErr 8, log)
+          | (log, Some args) =>
+              match this with
+              | None => Some (VErr 8, log ++ log0)
+              | Some (r, _) => option_map (fun v => (v, log ++ log0)) (call m r args)
+              end
+          end
+        else
+          match this with
+          | None => Some (VErr 8, log0)
+          | Some (r, s) =>
+              match conv_seq (plan m s eargs) eargs (map placeholder eargs) log0 with
+              | (log, None) => Some (VErr 8, log)
+              | (log, Some args) => option_map (fun v => (v, log)) (call m r args)
+              end
+          end
       end
   end.
